@@ -9,14 +9,17 @@ def mut(name, props, file, old, new, note=""):
 
 # ---------------- C01 / C04 : kvs/distlock/kvlock.go
 K='kvs/distlock/kvlock.go'
+mut('C05-e-renewal-on-the-timer-worker', ['C05','C01'], K,
+ '''	return timeout.Call(func() { go l.supportTimeout(ver) }, d)''',
+ '''	return timeout.Call(func() { l.supportTimeout(ver) }, d)''', 'revert of F13: the renewal (a storage call) runs on the timer worker again')
 mut('C01-a-trylock-error-is-success', ['C01'], K,
  '''	}); err == nil {
-		l.future.Store(timeout.Call(func() { l.supportTimeout(ver) }, l.dlp.leaseTTL/2))
+		l.future.Store(l.renewIn(ver, l.dlp.leaseTTL/2))
 		return true
 	}
 	atomic.StoreInt32(&l.lckCntr, 0)''',
  '''	}); err == nil || !errors.Is(err, errors.ErrExist) && ctx.Err() == nil {
-		l.future.Store(timeout.Call(func() { l.supportTimeout(ver) }, l.dlp.leaseTTL/2))
+		l.future.Store(l.renewIn(ver, l.dlp.leaseTTL/2))
 		return true
 	}
 	atomic.StoreInt32(&l.lckCntr, 0)''', 'a storage error that is neither ErrExist nor a context error is treated as success in TryLock')
@@ -92,8 +95,8 @@ mut('C05-a-renewal-ignores-cas-error', ['C05'], K,
  '''		if errors.Is(err, errors.ErrNotExist) || errors.Is(err, errors.ErrConflict) || !l.isLocked() {''',
  '''		if !l.isLocked() {''', 'renewal re-arms itself on ErrNotExist/ErrConflict as well while the Locker is locked again (stale chain keeps going)')
 mut('C05-b-renewal-at-full-ttl', ['C05'], K,
- '''	newFuture := timeout.Call(func() { l.supportTimeout(r.Version) }, l.dlp.leaseTTL/2)''',
- '''	newFuture := timeout.Call(func() { l.supportTimeout(r.Version) }, l.dlp.leaseTTL)''', 'renewal re-armed at leaseTTL instead of leaseTTL/2')
+ '''	newFuture := l.renewIn(r.Version, l.dlp.leaseTTL/2)''',
+ '''	newFuture := l.renewIn(r.Version, l.dlp.leaseTTL)''', 'renewal re-armed at leaseTTL instead of leaseTTL/2')
 mut('C05-c-revert-F10', ['C05'], K,
  '''		if errors.Is(err, errors.ErrNotExist) || errors.Is(err, errors.ErrConflict) || !l.isLocked() {''',
  '''		if true {''', 'revert of fix F10: any renewal error ends the chain')
